@@ -2140,7 +2140,10 @@ class MapColumnsNode(ViewRepresentation):
     def _equiv_nodes(self, other):
         if not isinstance(other, MapColumnsNode):
             return False
-        if not (self.column_remapping == other.column_remapping):
+        # the SQL prints the renamed columns in the order of the mapping's entries
+        if not (
+            list(self.column_remapping.items()) == list(other.column_remapping.items())
+        ):
             return False
         if not (self.column_deletions == other.column_deletions):
             return False
@@ -2258,7 +2261,10 @@ class RenameColumnsNode(ViewRepresentation):
     def _equiv_nodes(self, other):
         if not isinstance(other, RenameColumnsNode):
             return False
-        if not self.column_remapping == other.column_remapping:
+        # the SQL prints the renamed columns in the order of the mapping's entries
+        if not list(self.column_remapping.items()) == list(
+            other.column_remapping.items()
+        ):
             return False
         return True
 
